@@ -27,7 +27,8 @@ ST = lambda *fs: {"struct": [[n, t, d] for (n, t, d) in fs]}
 CAT = {0: ST(("a", "string", False), ("tok", O("string"), False), ("n", O(U(32)), False)),
        1: ST(("s", "str", False), ("b", "bool", False)),
        2: ST(("id", U(64), False), ("d", U(8), True), ("neg", O(I(16)), False)),
-       3: ST(("x", "string", False), ("y", "string", False), ("z", "string", False))}
+       3: ST(("x", "string", False), ("y", "string", False), ("z", "string", False)),
+       4: ST(("session-id", "string", False), ("__Host-tok", O("string"), False), ("a.b!#$*+^_`|~", O(U(32)), False))}          # names over the token alphabet that are not identifiers (serde rename)
 DEFAULTS = {2: {"d": {"i": "0"}}}
 
 
@@ -63,7 +64,7 @@ def sval(s): return {"s": s.encode().hex()}
 
 
 def jar_case(rng):
-    tid = rng.randrange(4)
+    tid = rng.randrange(5)
     fields = CAT[tid]['struct']
     want, parts, forms = [], [], []
     order = list(fields)
